@@ -29,7 +29,7 @@ COMMON_T1 = [("thread.c", f) for f in [
 
 def scenario_params(rng):
     nes = 1 + rng.below(3)
-    return [nes, 4 + rng.below(10), 2 + rng.below(4), rng.below(3), rng.below(4)]
+    return [nes, 4 + rng.below(10), 2 + rng.below(4), rng.below(3), rng.below(4), rng.below(3)]
 
 
 def validate(lg, params):
@@ -55,6 +55,19 @@ def validate_with_join(lg, params):
     return rejects, trans, n
 
 
+def reject_is_failure(rj):
+    """Every guard of Model.Sched is a clause of the life-cycle properties (a unit is pushed only from where nobody else
+    can reach it and while accounted for, BLOCKED is published after the count, the blocked counter equals the model's,
+    a unit starts once, join returns after TERMINATED ...): an execution of the real code that the automaton rejects is a
+    history on which such a clause fails."""
+    if rj.get("model") not in ("Model.Sched", "Model.Join"):
+        return None
+    r = rj.get("reject", "")
+    if not r.startswith("REJECT"):
+        return None
+    return "execution of the real code leaves the specification automaton %s: %s" % (rj.get("model"), r[:300])
+
+
 def run_sched(res, tier, broken, prop, extra_t1=(), validate_fn=None):
     funcs = COMMON_T1 + list(extra_t1)
     n, tb = t1.check(funcs)
@@ -62,7 +75,7 @@ def run_sched(res, tier, broken, prop, extra_t1=(), validate_fn=None):
     for b in tb:
         broken.append({"kind": "T1-skeleton", **b})
     vs.campaign(res, broken, tier, prop, "sc_units", ["sc_units.c"], scenario_params, validate_fn or validate,
-                sizes={"quick": (16, 3), "thorough": (200, 8), "search": (150, 6)})
+                sizes={"quick": (16, 3), "thorough": (200, 8), "search": (150, 6)}, reject_is_failure=reject_is_failure)
 
 
 def replay(res, path):
